@@ -192,6 +192,12 @@ Theorem c01_engine_marks :
 Proof. exact engine_marks. Qed.
 Print Assumptions c01_engine_marks.
 
+(* HTTP client (api/httpc namedService.do): the outcome handed to the named breaker is a success exactly when a response
+   came back with a status below 500 -- 4xx of any kind included; 5xx and transport errors (no response) are failures *)
+Theorem c01_http_client_marks : forall st, pred 10 st = benign 10 st /\ pred 10 1000 = false /\ pred 10 429 = true.
+Proof. intro st. repeat split. Qed.
+Print Assumptions c01_http_client_marks.
+
 (* ---------------- non-vacuity ---------------- *)
 Example c01_rejection_happens :
   match new_rw nbuckets bucket_ns false 0 with
